@@ -4,6 +4,7 @@ package main
 
 import (
 	"fmt"
+	"go/constant"
 	"go/token"
 	"go/types"
 	"strings"
@@ -107,7 +108,91 @@ func pathHasOtherUpdate(from ssa.Instruction, to *ssa.MapUpdate) bool {
 	return hitOther
 }
 
-// matchEdgeDominates: blk is dominated by the true edge of MatchReference(arg) where argOK(arg).
+// matchCallArg: cond is a successful-match test — the interface call MatchReference(v), or a call of a module helper
+// that returns true only when MatchReference (or a lookup in the reference map) succeeded for the label it was given.
+// Returns the label value in the caller.
+func matchCallArg(cond ssa.Value) (ssa.Value, bool) {
+	ci, ok := cond.(*ssa.Call)
+	if !ok {
+		return nil, false
+	}
+	if ci.Call.IsInvoke() {
+		if ci.Call.Method.Name() == "MatchReference" && len(ci.Call.Args) == 1 {
+			return ci.Call.Args[0], true
+		}
+		return nil, false
+	}
+	g := ci.Call.StaticCallee()
+	if g == nil || g.Blocks == nil {
+		return nil, false
+	}
+	// every non-false return of g is a match result for one and the same parameter
+	pi := -1
+	for _, r := range returnsOf(g) {
+		if len(r.Results) != 1 {
+			return nil, false
+		}
+		seen := map[ssa.Value]bool{}
+		okAll := true
+		var w func(v ssa.Value)
+		w = func(v ssa.Value) {
+			if seen[v] || !okAll {
+				return
+			}
+			seen[v] = true
+			switch x := v.(type) {
+			case *ssa.Const:
+				if x.Value != nil && x.Value.Kind() == constant.Bool && !constant.BoolVal(x.Value) {
+					return // false: no match claimed
+				}
+				okAll = false
+			case *ssa.Phi:
+				for _, e := range x.Edges {
+					w(e)
+				}
+			case *ssa.Call:
+				if a, ok := matchCallArg(x); ok {
+					for i, q := range g.Params {
+						if ssa.Value(q) == a {
+							if pi >= 0 && pi != i {
+								okAll = false
+							}
+							pi = i
+							return
+						}
+					}
+				}
+				okAll = false
+			case *ssa.Extract:
+				// `_, found := m[label]` on a reference map
+				if lk, ok := x.Tuple.(*ssa.Lookup); ok && lk.CommaOk && x.Index == 1 {
+					for i, q := range g.Params {
+						if ssa.Value(q) == lk.Index {
+							if pi >= 0 && pi != i {
+								okAll = false
+							}
+							pi = i
+							return
+						}
+					}
+				}
+				okAll = false
+			default:
+				okAll = false
+			}
+		}
+		w(r.Results[0])
+		if !okAll {
+			return nil, false
+		}
+	}
+	if pi < 0 || pi >= len(ci.Call.Args) {
+		return nil, false
+	}
+	return ci.Call.Args[pi], true
+}
+
+// matchEdgeDominates: blk is dominated by the true edge of a successful-match test of arg where argOK(arg).
 func matchEdgeDominates(fn *ssa.Function, blk *ssa.BasicBlock, argOK func(ssa.Value) bool) bool {
 	for _, b := range fn.Blocks {
 		iff := blockIf(b)
@@ -115,11 +200,11 @@ func matchEdgeDominates(fn *ssa.Function, blk *ssa.BasicBlock, argOK func(ssa.Va
 			continue
 		}
 		cond := stripNot(iff.Cond)
-		ci, ok := cond.(*ssa.Call)
-		if !ok || !ci.Call.IsInvoke() || ci.Call.Method.Name() != "MatchReference" || len(ci.Call.Args) != 1 {
+		arg, ok := matchCallArg(cond)
+		if !ok {
 			continue
 		}
-		if !argOK(ci.Call.Args[0]) {
+		if !argOK(arg) {
 			continue
 		}
 		idx := 0
